@@ -1,5 +1,6 @@
 (* Proofs/StreamerP.v — lemmas for property C16 (Model/Streamer.v against Spec/WireC16.v). *)
 From PV Require Import Base.Bytes Base.Outcome Base.Varint Gen.GenMessages Model.Streamer Spec.WireC16.
+From Coq Require Import Permutation.
 From Coq Require Import ZifyBool ZifyNat ZifyN.
 Local Open Scope N_scope.
 
@@ -597,6 +598,52 @@ Proof.
   intros al post Ha Hm. rewrite (parse_from_data_unfold msgs al post name layout _ _ _ Hlk Hp).
   now rewrite (bytes_eqb_neq _ _ Ha), (bytes_eqb_neq _ _ Hm).
 Qed.
+
+(* ---- keyword arguments are looked up by NAME: the order in which the caller wrote them does not matter ---- *)
+Lemma pack_fields_lookup_ext layout (k1 k2 : list (bytes * pyv)) :
+  (forall nm, In nm (map fst layout) -> str_lookup k1 nm = str_lookup k2 nm) ->
+  pack_fields stream_T stream_B stream_z header_of layout k1 = pack_fields stream_T stream_B stream_z header_of layout k2.
+Proof.
+  induction layout as [|[nm ty] r IH]; intros H; cbn [pack_fields]; [reflexivity|].
+  rewrite (H nm) by (cbn [map fst]; now left).
+  rewrite IH by (intros n Hn; apply H; cbn [map fst]; now right). reflexivity.
+Qed.
+
+Lemma pack_lookup_ext msgs name (k1 k2 : list (bytes * pyv)) :
+  (forall nm, str_lookup k1 nm = str_lookup k2 nm) ->
+  pack_from_data stream_T stream_B stream_z header_of msgs name k1
+  = pack_from_data stream_T stream_B stream_z header_of msgs name k2.
+Proof.
+  intros H. unfold pack_from_data. destruct (str_lookup msgs name) as [layout|]; [|reflexivity].
+  apply pack_fields_lookup_ext. intros nm _. apply H.
+Qed.
+
+Lemma str_lookup_not_in {A} (d : list (bytes * A)) k : ~ In k (map fst d) -> str_lookup d k = None.
+Proof.
+  induction d as [|[k' v] r IH]; cbn [str_lookup map fst]; intros H; [reflexivity|].
+  destruct (bytes_eqb k k') eqn:E; [apply bytes_eqb_eq in E; subst; exfalso; apply H; now left|].
+  apply IH. intros Hin. apply H. now right.
+Qed.
+
+Lemma str_lookup_perm {A} (d1 d2 : list (bytes * A)) : Permutation d1 d2 -> NoDup (map fst d1) ->
+  forall k, str_lookup d1 k = str_lookup d2 k.
+Proof.
+  induction 1 as [|[k0 v0] l l' HP IH|[k1 v1] [k2 v2] l|l l' l'' HP1 IH1 HP2 IH2]; intros ND k.
+  - reflexivity.
+  - cbn [str_lookup]. cbn [map fst] in ND. inversion ND; subst. rewrite IH by assumption. reflexivity.
+  - cbn [str_lookup]. cbn [map fst] in ND. inversion ND as [|? ? Hn1 ND']; subst.
+    destruct (bytes_eqb k k2) eqn:E2; destruct (bytes_eqb k k1) eqn:E1; try reflexivity.
+    apply bytes_eqb_eq in E1, E2. subst. exfalso. apply Hn1. now left.
+  - rewrite IH1 by assumption. apply IH2.
+    eapply Permutation_NoDup; [|exact ND]. now apply Permutation_map.
+Qed.
+
+(* any reordering of duplicate-free keyword arguments packs to the same bytes (or raises the same exception) *)
+Lemma pack_kwargs_order_independent msgs name (k1 k2 : list (bytes * pyv)) :
+  Permutation k1 k2 -> NoDup (map fst k1) ->
+  pack_from_data stream_T stream_B stream_z header_of msgs name k1
+  = pack_from_data stream_T stream_B stream_z header_of msgs name k2.
+Proof. intros HP ND. apply pack_lookup_ext. now apply str_lookup_perm. Qed.
 
 End P.
 
